@@ -354,6 +354,11 @@ class Intrinsics:
                     return z3.And(same, a.order == b.order) if same is not True else a.order == b.order
                 return same
             raise Unsupported("equality of concrete and symbolic dict")
+        if (isinstance(a, SAny) and isinstance(b, (HObj, HDict, HList))) or (isinstance(b, SAny) and isinstance(a, (HObj, HDict, HList))):
+            # an opaque value against a heap object: equal iff it denotes that very object
+            # (content equality of an unknown object cannot be established: conservative)
+            o, h = (a, b) if isinstance(a, SAny) else (b, a)
+            return o.t == ex.box(h)
         if isinstance(a, (HObj,)) or isinstance(b, (HObj,)):
             o, other = (a, b) if isinstance(a, HObj) else (b, a)
             r = self.obj_eq(o, other)
@@ -390,6 +395,10 @@ class Intrinsics:
 
     def contains(self, container, item):
         ex = self.ex
+        if is_tagged(container, "pathparts"):
+            if item == "..":
+                return container[1].pardir
+            raise Unsupported("membership in Path.parts of something other than os.pardir")
         if is_tagged(container, "set"):
             container = container[1]
         if isinstance(container, HList) and container.items is not None:
@@ -730,7 +739,10 @@ class Intrinsics:
             raise Unsupported(f"super().{attr}")
         if isinstance(obj, ExternalRef):
             try:
-                return ExternalRef(builtins.getattr(obj.obj, attr), f"{obj.qual}.{attr}")
+                v = builtins.getattr(obj.obj, attr)
+                if isinstance(v, (str, int, float, bool, type(None))) and not isinstance(obj.obj, (str, int, float)):
+                    return v  # plain constant of a module/class (os.path.pardir, sys.maxsize, ...)
+                return ExternalRef(v, f"{obj.qual}.{attr}")
             except AttributeError:
                 raise Unsupported(f"external attribute {obj.qual}.{attr}")
         if isinstance(obj, ModuleRef):
@@ -750,6 +762,10 @@ class Intrinsics:
             if r and r[0] == "assign":
                 return ex.eval(r[3], _frame_for(ex, r[1]))
             raise Unsupported(f"class attribute {obj.name}.{attr}")
+        from .intrinsics_lib import SPath, path_getattr
+
+        if isinstance(obj, SPath):
+            return path_getattr(self, obj, attr)
         if isinstance(obj, (SStr, str, SMarkup)):
             return BoundIntrinsic(obj, "str", attr)
         if isinstance(obj, (HList, HJoin)):
@@ -777,7 +793,12 @@ class Intrinsics:
                 from .specs import field_fn
 
                 kind = ex.contract.obj_fields[attr]
+                if attr in ex.contract.mutable_fields:
+                    v = z3.Select(ex.heap_field_array(attr), obj.t)
+                    return ex.unbox(v) if kind == "any" else wrap(v, kind)
                 return wrap(field_fn(attr, kind)(obj.t), kind)
+            if attr in ex.contract.obj_methods:
+                return PyCallable(lambda ex_, a, k, _o=obj, _m=attr: ex_.contract.obj_methods[_m](ex_, _o, a, k), f"{attr}")
             raise Unsupported(f"attribute .{attr} of opaque data")
         if isinstance(obj, (SInt, SBool, SReal)):
             if attr == "__class__":
@@ -962,6 +983,12 @@ class Intrinsics:
     # -------------------------------------------------------- str / repr
     def str_(self, v):
         ex = self.ex
+        from .intrinsics_lib import SPath, P_abs, P_pardir, P_noname, P_suffix
+
+        if isinstance(v, SPath):
+            s = ex.fresh("pathstr", "str")
+            ex.assume(z3.And(P_abs(s.t) == v.abs, P_pardir(s.t) == v.pardir, P_noname(s.t) == v.noname, P_suffix(s.t) == v.suffix))
+            return s
         if isinstance(v, (SStr, str)):
             return v
         if isinstance(v, SMarkup):
@@ -1115,6 +1142,18 @@ class Intrinsics:
             args = [selfv] + list(args)
         elif isinstance(fv, FuncRef):
             f = fv
+        if isinstance(fv, ExternalRef) and fv.qual.endswith("suppress"):
+            names = [a.obj.__name__ if isinstance(a, ExternalRef) else a.name for a in args]
+            self.use("contextlib.suppress(E): swallows exceptions of class E raised by the body")
+
+            def cm(body):
+                try:
+                    body(None)
+                except RaiseSig as rs:
+                    if not any(n in ex.exc_ancestors(rs.exc) for n in names):
+                        raise
+
+            return cm
         if f is not None and any(ast.unparse(d) == "contextmanager" for d in f.node.decorator_list):
             target = ex.target_of(f)
             if target:
